@@ -260,9 +260,16 @@ func checkPanicInvariants(c *Ctx, r *Report) {
 		viol := ""
 		n := 0
 		for _, cl := range w.callersOf(nameIs("(*graphs/symboldg.SymbolGraph).createAndAddSymNode")) {
-			kind := cl.Common().Args[2]
-			k, ok := kind.(*ssa.Const)
-			if !ok || k.Value == nil || constString(k.Value) != "Controller" {
+			// the operands, wherever a refactoring put them: positional arguments, or the fields of a
+			// parameter struct built for the call
+			ops := callOperandValues(cl)
+			isController := false
+			for _, v := range ops {
+				if k, ok := v.(*ssa.Const); ok && k.Value != nil && strings.HasSuffix(k.Type().String(), "common.SymKind") && constString(k.Value) == "Controller" {
+					isController = true
+				}
+			}
+			if !isController {
 				continue
 			}
 			n++
@@ -270,8 +277,13 @@ func checkPanicInvariants(c *Ctx, r *Report) {
 			if fnShort(cl.Parent()) != "(*graphs/symboldg.SymbolGraph).AddController" {
 				viol = fmt.Sprintf("%s: a node of kind Controller is created outside AddController", w.pos(cl.Pos()))
 			}
-			data := cl.Common().Args[len(cl.Common().Args)-1]
-			if mi, ok := data.(*ssa.MakeInterface); !ok || short(types.TypeString(mi.X.Type(), nil)) != "core/metadata.ControllerMeta" {
+			okData := false
+			for _, v := range ops {
+				if mi, ok := v.(*ssa.MakeInterface); ok && short(types.TypeString(mi.X.Type(), nil)) == "core/metadata.ControllerMeta" {
+					okData = true
+				}
+			}
+			if !okData {
 				viol = fmt.Sprintf("%s: the Controller node's Data is not a metadata.ControllerMeta value", w.pos(cl.Pos()))
 			}
 		}
@@ -876,4 +888,35 @@ func (w *World) tabledForAbsorbed(table map[string]string, host, key string) str
 		}
 	}
 	return ""
+}
+
+// callOperandValues: the values a call is given - its arguments and, for an argument that is a
+// struct built for the call (a local composite literal, by value or by address), the values
+// stored into that struct's fields.
+func callOperandValues(cl ssa.CallInstruction) []ssa.Value {
+	var out []ssa.Value
+	for _, a := range cl.Common().Args {
+		out = append(out, a)
+		v := stripTrivial(a)
+		var al *ssa.Alloc
+		switch x := v.(type) {
+		case *ssa.Alloc:
+			al = x
+		case *ssa.UnOp:
+			al, _ = x.X.(*ssa.Alloc)
+		}
+		if al == nil || al.Referrers() == nil {
+			continue
+		}
+		for _, rf := range *al.Referrers() {
+			if fa, ok := rf.(*ssa.FieldAddr); ok && fa.Referrers() != nil {
+				for _, r2 := range *fa.Referrers() {
+					if st, ok := r2.(*ssa.Store); ok && st.Addr == ssa.Value(fa) {
+						out = append(out, st.Val)
+					}
+				}
+			}
+		}
+	}
+	return out
 }
